@@ -324,6 +324,14 @@ class StmtMixin:
         t = self.ev(h.type)
         classes = t.items if isinstance(t, (STup, PyList)) else [t]
         for c in classes:
+            if isinstance(c, SOpt):
+                c = self.force(c, 'except clause')
+            if isinstance(c, SV) and c.shape is ValS:
+                # an opaque tuple of exception classes (user configuration):
+                # may or may not match -- both are explored
+                if self.exc_subclass(exc.cls, 'Exception') and self.path.choose(2) == 0:
+                    return True
+                continue
             if not isinstance(c, VClass):
                 raise Unsupported('except clause with non-class %r' % (c,))
             r = self.exc_matches(exc, c.name)
